@@ -49,7 +49,24 @@ fn gen_list(src: &mut Src, rep: &mut Report) -> Vec<f64> {
     // perturbations
     let p = src.below(16);
     match p {
-        0..=5 => {}
+        0..=3 => {}
+        4 | 5 => {
+            // what users write: the crate's own helpers (evenly spaced / geometric lists, bounds that carry rounding error)
+            let count = 1 + src.below(40);
+            let made = if p == 4 {
+                let start = [0.0, 0.1, -1.0, 5.0, 0.3, 1e-3][src.below(6)];
+                let width = [0.3, 0.7, 0.1, 1.0, 0.25, 1e-3, 3.3][src.below(7)];
+                prometheus::linear_buckets(start, width, count)
+            } else {
+                let start = [0.001, 1.0, 0.3, 0.1, 5e-324][src.below(5)];
+                let factor = [2.0, 1.1, 10.0, 1.5, 1.000_000_1][src.below(5)];
+                prometheus::exponential_buckets(start, factor, count)
+            };
+            if let Ok(l) = made {
+                v = l;
+                rep.class(if p == 4 { "list:linear_buckets()" } else { "list:exponential_buckets()" });
+            }
+        }
         6 => {
             // wide configuration: 20-129 further bounds on an increasing ladder (the library imposes no limit on the number)
             if v.last().map_or(false, |l| !(l.abs() < 1e15)) {
@@ -151,7 +168,7 @@ impl Property for C08 {
     }
     fn rule(&self) -> &'static str {
         "case = bucket list (sorted distinct f64 of every class, then perturbed: swap / duplicate / NaN / +Inf trailing or anywhere / \
-         -Inf first / signed-zero pair / empty / wide: 20-129 further bounds on an arithmetic or geometric ladder) x delivery path (Histogram, HistogramVec child, LocalHistogram) x 0-40 operations \
+         -Inf first / signed-zero pair / empty / produced by linear_buckets() or exponential_buckets() with 1-40 bounds / wide: 20-129 further bounds on an arithmetic or geometric ladder) x delivery path (Histogram, HistogramVec child, LocalHistogram) x 0-40 operations \
          (observe of bounds, bounds +-1ulp, +-0, subnormals, +-inf, NaN, arbitrary bit patterns; local observe/flush/clear/clone+drop; collect). \
          Oracle: acceptance predicate of the statement; naive count(v <= b), n, in-order fold reference. Non-trivial: accepted list \
          with >=2 bounds and an observation equal to a bound / non-finite / above every bound, or a rejected list whose defect is not \
